@@ -301,7 +301,7 @@ theorem step_queued (L : Limits) (st : St) (op : Op) :
     have h := onDialFailure_queued h
     split at h <;> exact h
   | view p v => exact ⟨fun x h => Or.inl h, by simp [step]⟩
-  | subopen s budget off =>
+  | subopen s budget off delays =>
     simp only [step]
     split
     · exact ⟨fun x h => Or.inl h, by simp⟩
@@ -317,7 +317,7 @@ theorem step_queued (L : Limits) (st : St) (op : Op) :
     · refine ⟨fun x h => Or.inl ?_, by simp⟩
       have h2 := onSubstreamOpenFailure_queued h
       exact h2
-  | plan s budget off =>
+  | plan s budget off delays =>
     simp only [step]
     split
     · exact ⟨fun x h => Or.inl h, by simp⟩
@@ -341,6 +341,24 @@ theorem step_queued (L : Limits) (st : St) (op : Op) :
     · exact ⟨fun x h => Or.inl h, by simp⟩
     · split
       · exact ⟨fun x h => Or.inl h, by simp⟩
+      · split
+        · exact ⟨fun x h => Or.inl h, by simp⟩
+        · exact ⟨fun x h => Or.inl h, by simp⟩
+  | inhold k =>
+    simp only [step]
+    split
+    · exact ⟨fun x h => Or.inl h, by simp⟩
+    · split
+      · exact ⟨fun x h => Or.inl h, by simp⟩
+      · exact ⟨fun x h => Or.inl h, by simp⟩
+  | inrest k d =>
+    simp only [step]
+    split
+    · exact ⟨fun x h => Or.inl h, by simp⟩
+    · split
+      · split
+        · exact ⟨fun x h => Or.inl h, by simp⟩
+        · exact ⟨fun x h => Or.inl h, by simp⟩
       · exact ⟨fun x h => Or.inl h, by simp⟩
   | inend k =>
     simp only [step]
@@ -379,37 +397,161 @@ def Attempt.WellFormed (L : Limits) (t : Attempt) : Prop :=
   (t.ok = true → t.written = (actionFrames L t.action).1) ∧
   (t.ok = false → t.written.length < (actionFrames L t.action).1.length ∨ (actionFrames L t.action).2 = false)
 
-theorem Far.take_le (f : Far) (n : Nat) : (f.take n).1 ≤ n := by
+theorem timely_le (wt : Nat) : ∀ (n : Nat) (ds : List Nat), timely wt ds n ≤ n := by
+  intro n
+  induction n with
+  | zero => intro ds; simp [timely]
+  | succ n ih =>
+    intro ds
+    unfold timely
+    split
+    · have := ih (delayTail ds); omega
+    · omega
+
+theorem Far.take_le (wt : Nat) (f : Far) (n : Nat) : (f.take wt n).1 ≤ n := by
+  have hle := timely_le wt n f.delays
   unfold Far.take
   cases f.budget with
-  | none => simp
+  | none => exact hle
   | some k =>
     by_cases hn : n ≤ k
-    · simp [hn]
+    · simp only [hn, if_true]; exact hle
     · simp only [hn, if_false]; omega
 
-theorem Far.take_ok {f : Far} {n : Nat} (h : (f.take n).2 = true) : (f.take n).1 = n := by
+theorem Far.take_ok {wt : Nat} {f : Far} {n : Nat} (h : (f.take wt n).2 = true) : (f.take wt n).1 = n := by
   unfold Far.take at h ⊢
   cases hb : f.budget with
-  | none => simp
+  | none =>
+    simp only [hb, beq_iff_eq] at h ⊢
+    exact h
   | some k =>
     simp only [hb] at h ⊢
     by_cases hn : n ≤ k
-    · simp [hn]
+    · simp only [hn, if_true, beq_iff_eq] at h ⊢
+      exact h
     · simp [hn] at h
 
-theorem Far.take_fail {f : Far} {n : Nat} (h : (f.take n).2 = false) : (f.take n).1 < n := by
+theorem Far.take_fail {wt : Nat} {f : Far} {n : Nat} (h : (f.take wt n).2 = false) : (f.take wt n).1 < n := by
+  have hle := timely_le wt n f.delays
   unfold Far.take at h ⊢
   cases hb : f.budget with
-  | none => simp [hb] at h
+  | none =>
+    simp only [hb, beq_eq_false_iff_ne, ne_eq] at h ⊢
+    omega
   | some k =>
     simp only [hb] at h ⊢
     by_cases hn : n ≤ k
-    · simp [hn] at h
+    · simp only [hn, if_true, beq_eq_false_iff_ne, ne_eq] at h ⊢
+      omega
     · simp only [hn, if_false]; omega
+
+/-! ## time: each frame has its own `WRITE_TIMEOUT`, nothing bounds the whole -/
+
+/-- A slow but healthy link: the far end refuses nothing and takes at most `wt` for every frame. -/
+def Far.Timely (wt : Nat) (f : Far) : Prop := f.budget = none ∧ ∀ d ∈ f.delays, d ≤ wt
+
+theorem delayHead_le {wt : Nat} {ds : List Nat} (h : ∀ d ∈ ds, d ≤ wt) : delayHead ds ≤ wt := by
+  cases ds with
+  | nil => simp [delayHead]
+  | cons d t => exact h d (by simp)
+
+theorem mem_delayTail {d : Nat} {ds : List Nat} (h : d ∈ delayTail ds) : d ∈ ds := by
+  match ds, h with
+  | [x], h => simpa [delayTail] using h
+  | _ :: _ :: _, h => exact List.mem_cons_of_mem _ (by simpa [delayTail] using h)
+
+theorem mem_delaysAfter {d : Nat} : ∀ (n : Nat) {ds : List Nat}, d ∈ delaysAfter n ds → d ∈ ds := by
+  intro n
+  induction n with
+  | zero => intro ds h; simpa [delaysAfter] using h
+  | succ n ih => intro ds h; exact mem_delayTail (ih (by simpa [delaysAfter] using h))
+
+/-- every frame within the timeout: all `n` frames are accepted, whatever they add up to -/
+theorem timely_all {wt : Nat} : ∀ (n : Nat) {ds : List Nat}, (∀ d ∈ ds, d ≤ wt) → timely wt ds n = n := by
+  intro n
+  induction n with
+  | zero => intro ds _; simp [timely]
+  | succ n ih =>
+    intro ds h
+    unfold timely
+    rw [if_pos (delayHead_le h), ih (fun d hd => h d (mem_delayTail hd))]
+
+/-- the first frame slower than the timeout ends the call: exactly the frames before it are accepted -/
+theorem timely_late {wt : Nat} : ∀ (j : Nat) {ds : List Nat} {n : Nat}, timely wt ds j = j →
+    wt < delayHead (delaysAfter j ds) → j < n → timely wt ds n = j := by
+  intro j
+  induction j with
+  | zero =>
+    intro ds n _ hl hn
+    cases n with
+    | zero => omega
+    | succ n =>
+      unfold timely
+      simp only [delaysAfter] at hl
+      rw [if_neg (by omega)]
+  | succ j ih =>
+    intro ds n hj hl hn
+    cases n with
+    | zero => omega
+    | succ n =>
+      unfold timely at hj ⊢
+      have hle := timely_le wt j (delayTail ds)
+      split at hj
+      · rename_i hd
+        rw [if_pos hd, ih (by omega) (by simpa [delaysAfter] using hl) (by omega)]
+      · omega
+
+theorem Far.take_timely {wt : Nat} {f : Far} (h : f.Timely wt) (n : Nat) : f.take wt n = (n, true) := by
+  unfold Far.take
+  rw [h.1]
+  simp only [timely_all n h.2, beq_self_eq_true]
+
+theorem Far.after_timely {wt : Nat} {f : Far} (h : f.Timely wt) (n : Nat) : (f.after wt n).Timely wt := by
+  have hb := h.1
+  unfold Far.after
+  split
+  · exact ⟨hb, fun d hd => h.2 d (mem_delaysAfter _ hd)⟩
+  · rename_i k hk
+    rw [hb] at hk
+    cases hk
+
+/-- `send_*` over a slow but healthy link: every frame of the action is written, the call returns what
+the codec says, the time is the sum of the frames' times — no bound on it —, and the link stays as it is. -/
+theorem attempt_timely (L : Limits) (s : Nat) (f : Far) (a : Action) (h : f.Timely L.writeTimeout) :
+    (attempt L s f a).1.written = (actionFrames L a).1 ∧
+    (attempt L s f a).1.ok = (actionFrames L a).2 ∧
+    (attempt L s f a).1.partialBytes = 0 ∧
+    (attempt L s f a).1.elapsed = elapsedOf f.delays (actionFrames L a).1.length ∧
+    (attempt L s f a).2.Timely L.writeTimeout := by
+  refine ⟨?_, ?_, ?_, ?_, Far.after_timely h _⟩
+  · simp only [attempt, Far.take_timely h, List.take_length]
+  · simp only [attempt, Far.take_timely h, Bool.true_and]
+  · simp only [attempt, Far.partialOf, h.1]
+  · simp only [attempt, Far.take_timely h]
+
+/-- the loop of `on_outbound_substream` over a slow but healthy link: every queued action is sent
+completely, in order -/
+theorem runActions_timely (L : Limits) (s : Nat) : ∀ (q : List Action) (f : Far), f.Timely L.writeTimeout →
+    (∀ a ∈ q, (actionFrames L a).2 = true) →
+    (runActions L s f q).1.map (fun t => (t.action, t.written, t.ok)) =
+      q.map (fun a => (a, (actionFrames L a).1, true)) ∧
+    (runActions L s f q).2.2 = true := by
+  intro q
+  induction q with
+  | nil => intro f _ _; simp [runActions]
+  | cons a rest ih =>
+    intro f hf hc
+    obtain ⟨h1, h2, _, _, h5⟩ := attempt_timely L s f a hf
+    have hok : (attempt L s f a).1.ok = true := by rw [h2]; exact hc a (by simp)
+    obtain ⟨i1, i2⟩ := ih (attempt L s f a).2 h5 (fun b hb => hc b (List.mem_cons_of_mem _ hb))
+    unfold runActions
+    rw [if_pos hok]
+    refine ⟨?_, i2⟩
+    simp only [List.map_cons, i1, h1, hok]
+    rfl
 
 theorem attempt_wf (L : Limits) (s : Nat) (f : Far) (a : Action) : (attempt L s f a).1.WellFormed L := by
-  have hle := Far.take_le f (actionFrames L a).1.length
+  have hle := Far.take_le L.writeTimeout f (actionFrames L a).1.length
   refine ⟨?_, ?_, ?_⟩
   · simp only [attempt, List.length_take, Nat.min_eq_left hle]
   · intro hok
@@ -454,7 +596,7 @@ theorem step_wf (L : Limits) (st : St) (op : Op) : ∀ t ∈ (step L st op).2.2.
         rw [h]; exact attempt_wf _ _ _ _
     · rw [enqueue_attempts] at h
       simp at h
-  | subopen s budget off =>
+  | subopen s budget off delays =>
     intro t h
     simp only [step] at h
     split at h
@@ -476,7 +618,7 @@ theorem step_wf (L : Limits) (st : St) (op : Op) : ∀ t ∈ (step L st op).2.2.
   | dialfail p => intro t h; simp [step] at h
   | view p v => intro t h; simp [step] at h
   | subfail s => intro t h; simp only [step] at h; split at h <;> simp at h
-  | plan s budget off =>
+  | plan s budget off delays =>
     intro t h
     simp only [step] at h
     split at h
@@ -488,7 +630,23 @@ theorem step_wf (L : Limits) (st : St) (op : Op) : ∀ t ∈ (step L st op).2.2.
     simp only [step] at h
     split at h
     · simp at h
+    · split at h
+      · simp at h
+      · split at h <;> simp at h
+  | inhold k =>
+    intro t h
+    simp only [step] at h
+    split at h
+    · simp at h
     · split at h <;> simp at h
+  | inrest k d =>
+    intro t h
+    simp only [step] at h
+    split at h
+    · simp at h
+    · split at h
+      · split at h <;> simp at h
+      · simp at h
   | inend k => intro t h; simp only [step] at h; split at h <;> simp at h
 
 theorem run_wf (L : Limits) : ∀ (ops : List Op) (st : St) (t : Attempt), t ∈ (run L st ops).2 → t.WellFormed L := by
